@@ -113,3 +113,13 @@ impl From<f64> for Value {
         Value::Number(value)
     }
 }
+
+#[cfg(feature = "verif-hooks")]
+impl Value {
+    pub(crate) fn verif_value(&self) -> crate::verif::VerifValue {
+        match self {
+            Value::String(string) => crate::verif::VerifValue::Str(string.to_string()),
+            Value::Number(number) => crate::verif::VerifValue::Num(number.to_bits()),
+        }
+    }
+}
